@@ -1,0 +1,57 @@
+//go:build verif
+
+// Contracts for contract-based verification (/verif). Comment-only: with or without the
+// build tag "verif" this file adds nothing to the compiled package.
+
+package core
+
+// ---------------------------------------------------------------------------------------------
+// C11: the gate is a monitor over the abstract latch (count, arrived, canceled, err).
+// ---------------------------------------------------------------------------------------------
+
+//@ monitor gateImpl g
+//@   lock g.gateCondition.L
+//@   cond g.gateCondition
+//@   protects count, arrived, canceled, err
+//@   invariant [arrived<=count] g.arrived <= g.count
+//@   waitcond g.arrived == g.count || g.canceled
+
+//@ func (*gateImpl).Register
+//@   modifies g.count
+//@   ensures [add] g.count == old(g.count) + count
+
+//@ func (*gateImpl).SetCount
+//@   modifies g.count
+//@   ensures [refuse] count < old(g.arrived) ==> r0 == ErrGateIntegrity && unchanged(g.count, g.arrived, g.canceled, g.err)
+//@   ensures [accept] count >= old(g.arrived) ==> r0 == nil && g.count == count && unchanged(g.arrived, g.canceled, g.err)
+
+//@ func (*gateImpl).Reset
+//@   modifies g.arrived
+//@   ensures [sticky] old(g.canceled) ==> unchanged(g.count, g.arrived, g.canceled, g.err)
+//@   ensures [rearm] !old(g.canceled) ==> g.arrived == 0 && unchanged(g.count, g.canceled, g.err)
+
+//@ func (*gateImpl).WalkThrough
+//@   modifies g.arrived
+//@   ensures [refuse] old(g.arrived) == old(g.count) ==> r0 == ErrGateIntegrity && unchanged(g.count, g.arrived, g.canceled, g.err)
+//@   ensures [arrive] old(g.arrived) != old(g.count) ==> r0 == nil && g.arrived == old(g.arrived) + 1 && unchanged(g.count, g.canceled, g.err)
+
+//@ func (*gateImpl).AwaitGateCondition
+//@   modifies nothing
+//@   ensures [success] r0 == nil <==> !g.canceled
+//@   ensures [exact] r0 == nil ==> g.arrived == g.count
+//@   ensures [cancel-err] g.canceled && g.err != nil ==> r0 == g.err
+//@   ensures [cancel-noerr] g.canceled && g.err == nil ==> r0 == ErrGateCanceled
+//@   ensures [unchanged] unchanged(g.count, g.arrived, g.canceled, g.err)
+//@   loop for g.arrived != g.count && !g.canceled: invariant held(g) && g.arrived <= g.count && unchanged(g.count, g.arrived, g.canceled, g.err) && (wold(g) <==> (g.arrived == g.count || g.canceled))
+
+//@ func (*gateImpl).CancelWithError
+//@   modifies g.canceled, g.err
+//@   ensures [cancelled] g.canceled && g.err == err && unchanged(g.count, g.arrived)
+
+//@ func (*gateImpl).Clear
+//@   modifies g.canceled, g.arrived, g.err
+//@   ensures [cleared] !g.canceled && g.arrived == 0 && g.err == nil && unchanged(g.count)
+
+//@ func NewGate
+//@   ensures [fresh] typeis(r0, *gateImpl) && fresh(r0)
+//@   ensures [initial] r0.(*gateImpl).count == count && r0.(*gateImpl).arrived == 0 && !r0.(*gateImpl).canceled && r0.(*gateImpl).err == nil
